@@ -1,0 +1,20 @@
+//go:build verif
+
+// Contracts for the deductive verifier in /verif (govc) — JSON-RPC formatting of receipts (C14). This file contains no
+// code: with the build tag off it is not part of the package, with it on it adds nothing to the build.
+package types
+
+//@ import big "math/big"
+//@ import ethtypes "github.com/ethereum/go-ethereum/core/types"
+
+// utils.go NewRPCReceiptFromReceipt: status, gas used, cumulative gas, indices, block hash and the log list are copied
+// from the receipt; the sender is the message's From (bech32 -> 20 bytes), the hash the hash of the embedded transaction.
+//@ func NewRPCReceiptFromReceipt(ethMsg *evmtypes.MsgEthereumTx, ethReceipt *ethtypes.Receipt, effectiveGasPrice *big.Int) (receipt *RPCReceipt, err error)
+//@   requires ethMsg != nil && ethReceipt != nil && effectiveGasPrice != nil && ethReceipt.BlockNumber != nil
+//@   modifies nothing
+//@   ensures[C14.rpc_receipt_fresh] err == nil && receipt != nil && fresh(receipt)
+//@   ensures[C14.rpc_receipt_status_gas] receipt.Status == ethReceipt.Status && receipt.GasUsed == ethReceipt.GasUsed && receipt.CumulativeGasUsed == ethReceipt.CumulativeGasUsed
+//@   ensures[C14.rpc_receipt_indices] receipt.TransactionIndex == ethReceipt.TransactionIndex && receipt.Type == ethReceipt.Type && receipt.BlockHash == ethReceipt.BlockHash
+//@   ensures[C14.rpc_receipt_logs] receipt.Logs == ethReceipt.Logs
+//@   ensures[C14.rpc_receipt_sender_hash] receipt.TransactionHash == decHash(bytes(ethMsg.MarshalledTx)) && receipt.From == bytesToAddr(bech32Bytes(ethMsg.From))
+//@   panics any
